@@ -19,7 +19,8 @@ fn valid_len(v: &str) -> Option<Option<u64>> {
 
 /// C03: method x status x Content-Length lists x Transfer-Encoding lists; body wire long enough for every small length
 #[test]
-fn vp_native_framing_decision_matrix() {
+fn vp_native_framing_decision_matrix() { watched(vp_native_framing_decision_matrix_body); }
+fn vp_native_framing_decision_matrix_body() {
     let cl_values = ["0", "3", "03", "-3", "3a", " 3", "", "18446744073709551615", "18446744073709551616", "99999999999999999999",
                      "18446744073709551621", "1e2", "+3", "00000000000000000000005"];
     // Transfer-Encoding as a list of field lines (a list split over several lines is the same list, RFC 9110 5.3)
@@ -93,7 +94,8 @@ fn vp_native_framing_decision_matrix() {
 /// interface.  For a Content-Length frame cut anywhere inside (or exactly around) a deflate / gzip stream, what the caller gets
 /// does not depend on the bytes that follow the frame: the same outcome as when nothing follows.
 #[test]
-fn vp_native_frame_bounds_coded_bodies() {
+fn vp_native_frame_bounds_coded_bodies() { watched(vp_native_frame_bounds_coded_bodies_body); }
+fn vp_native_frame_bounds_coded_bodies_body() {
     use std::io::Write;
     let payload: Vec<u8> = (0..3000u32).map(|i| (i * 31 % 251) as u8).collect();
     let mut cases = 0u64;
@@ -125,7 +127,8 @@ fn vp_native_frame_bounds_coded_bodies() {
 /// C04: heads built from small alphabets parse back to what was sent (names case-insensitively, values trimmed, duplicates in
 /// order, bare-LF folds to spaces, Transfer-Encoding hidden)
 #[test]
-fn vp_native_head_roundtrip_small() {
+fn vp_native_head_roundtrip_small() { watched(vp_native_head_roundtrip_small_body); }
+fn vp_native_head_roundtrip_small_body() {
     let names = ["X-A", "x-b", "Set-Cookie", "Transfer-Encoding"];
     let values: [&[u8]; 12] = [b"v", b"", b"a b", b"\xc3\xa9", b"a\n b", b"  padded  ", b"1, 2", b"\n foo", b"foo\n", b" \n ", b"\n\tfoo \n bar\n", b"a\n\nb"];
     let mut cases = 0u64;
@@ -196,7 +199,8 @@ fn head_with(count: usize, distinct: usize) -> Vec<u8> {
 }
 /// C05: the max_headers limit counts field lines (repeated names included): a head with more than max_headers fields is refused
 #[test]
-fn vp_native_head_field_limit() {
+fn vp_native_head_field_limit() { watched(vp_native_head_field_limit_body); }
+fn vp_native_head_field_limit_body() {
     let mut cases = 0u64;
     for max in 0usize..5 { for count in 0usize..8 { for distinct in 1usize..=7 {
         if count <= max { continue; }
@@ -210,7 +214,8 @@ fn vp_native_head_field_limit() {
 }
 /// C04: a head with at most max_headers fields is accepted and every field is exposed, up to exactly the limit
 #[test]
-fn vp_native_head_up_to_the_limit() {
+fn vp_native_head_up_to_the_limit() { watched(vp_native_head_up_to_the_limit_body); }
+fn vp_native_head_up_to_the_limit_body() {
     let mut cases = 0u64;
     for max in 0usize..5 { for count in 0usize..8 { for distinct in 1usize..=7 {
         if count > max { continue; }
@@ -226,7 +231,8 @@ fn vp_native_head_up_to_the_limit() {
 /// C01 end to end through the public accessors: framing x payload size (around the 8 KiB read buffer and the 64 KiB chunk buffer) x
 /// chunking x accessor (bytes, write_to, read with schedules that include empty, 1-byte and huge reads): exactly the payload, then Ok(0)
 #[test]
-fn vp_native_response_body_end_to_end() {
+fn vp_native_response_body_end_to_end() { watched(vp_native_response_body_end_to_end_body); }
+fn vp_native_response_body_end_to_end_body() {
     use std::io::Read;
     let sizes = [0usize, 1, 5, 8191, 8192, 8193, 65535, 65536, 65537, 131073, 200_000];
     let schedules: [&[usize]; 7] = [&[1], &[0, 7], &[7, 0, 0, 3], &[64, 0, 100_000], &[70_000], &[65536], &[8192, 1]];
@@ -280,7 +286,8 @@ fn vp_native_response_body_end_to_end() {
 /// body cut is an error of bytes()/write_to()/read (never a clean end), and what was handed out before and after the error is a
 /// prefix of the payload
 #[test]
-fn vp_native_response_truncation_end_to_end() {
+fn vp_native_response_truncation_end_to_end() { watched(vp_native_response_truncation_end_to_end_body); }
+fn vp_native_response_truncation_end_to_end_body() {
     use std::io::Read;
     let payload = b"hello wor\r\n0\r\n\r\nld!".to_vec();
     let mut wires: Vec<(&str, Vec<u8>, usize)> = Vec::new();   // (name, wire, end of frame)
@@ -333,7 +340,8 @@ impl<'a> std::io::Read for Paused<'a> {
 /// C04 / C19: the head parses to the same status and fields for every segmentation of its bytes and every BufReader capacity, and
 /// parsing returns as soon as the blank line has arrived (the transport never delivers anything after it)
 #[test]
-fn vp_native_head_any_segmentation() {
+fn vp_native_head_any_segmentation() { watched(vp_native_head_any_segmentation_body); }
+fn vp_native_head_any_segmentation_body() {
     let heads: [&[u8]; 4] = [
         b"HTTP/1.1 200 OK\r\n\r\n",
         b"HTTP/1.1 404 Not Found\r\nX-A: 1\r\nx-a:  two  \r\nSet-Cookie: a=b\r\nSet-Cookie: c=d\r\n\r\n",
@@ -360,10 +368,32 @@ fn vp_native_head_any_segmentation() {
 // ---- an allocator that records the largest single request made by a thread that asked for it (C05: no allocation proportional to a
 // size that is merely declared on the wire); everything is passed on to the system allocator
 struct Counting;
+// ---- watchdog: a parser that spins on a finite input must fail the check, not hang it.  Every allocation made anywhere in the
+// test binary is a heartbeat (the counting allocator below); a test body runs on its own thread and the test fails when no
+// allocation at all happened for STALL_SECS while the body has not finished.
+static ALLOC_BEAT: std::sync::atomic::AtomicU64 = std::sync::atomic::AtomicU64::new(0);
+const STALL_SECS: u64 = 30;
+fn watched(body: fn()) {
+    let (tx, rx) = std::sync::mpsc::channel();
+    std::thread::Builder::new().stack_size(16 << 20).spawn(move || { let r = std::panic::catch_unwind(body); let _ = tx.send(r); }).unwrap();
+    let (mut last, mut idle) = (u64::MAX, 0u64);
+    loop {
+        match rx.recv_timeout(std::time::Duration::from_secs(1)) {
+            Ok(Ok(())) => return,
+            Ok(Err(p)) => std::panic::resume_unwind(p),
+            Err(std::sync::mpsc::RecvTimeoutError::Timeout) => {
+                let now = ALLOC_BEAT.load(Ordering::Relaxed);
+                if now == last { idle += 1; } else { idle = 0; last = now; }
+                if idle >= STALL_SECS { panic!("the code under test made no progress for {} s and did not return (non-termination on a finite input)", STALL_SECS); }
+            }
+            Err(_) => panic!("the check's body thread vanished"),
+        }
+    }
+}
 static PEAK: AtomicUsize = AtomicUsize::new(0);
 thread_local! { static WATCH: Cell<bool> = const { Cell::new(false) }; }
 unsafe impl GlobalAlloc for Counting {
-    unsafe fn alloc(&self, l: Layout) -> *mut u8 { if WATCH.try_with(|w| w.get()).unwrap_or(false) { PEAK.fetch_max(l.size(), Ordering::SeqCst); } System.alloc(l) }
+    unsafe fn alloc(&self, l: Layout) -> *mut u8 { ALLOC_BEAT.fetch_add(1, Ordering::Relaxed); if WATCH.try_with(|w| w.get()).unwrap_or(false) { PEAK.fetch_max(l.size(), Ordering::SeqCst); } System.alloc(l) }
     unsafe fn dealloc(&self, p: *mut u8, l: Layout) { System.dealloc(p, l) }
     unsafe fn realloc(&self, p: *mut u8, l: Layout, n: usize) -> *mut u8 { if WATCH.try_with(|w| w.get()).unwrap_or(false) { PEAK.fetch_max(n, Ordering::SeqCst); } System.realloc(p, l, n) }
     unsafe fn alloc_zeroed(&self, l: Layout) -> *mut u8 { if WATCH.try_with(|w| w.get()).unwrap_or(false) { PEAK.fetch_max(l.size(), Ordering::SeqCst); } System.alloc_zeroed(l) }
@@ -373,7 +403,8 @@ unsafe impl GlobalAlloc for Counting {
 /// C05: sizes that are merely declared (Content-Length, chunk sizes) never drive an allocation: a response announcing up to 2^64-1
 /// bytes and delivering a few is an error of the accessors, without panic, and no single allocation exceeds a few hundred KiB
 #[test]
-fn vp_native_declared_sizes_not_allocated() {
+fn vp_native_declared_sizes_not_allocated() { watched(vp_native_declared_sizes_not_allocated_body); }
+fn vp_native_declared_sizes_not_allocated_body() {
     use std::io::Read;
     let mut cases = 0u64;
     let declared = ["300000000", "4294967296", "1099511627776", "9223372036854775807", "9223372036854775808", "18446744073709551615"];
@@ -495,7 +526,8 @@ const GEN_CASES: usize = 1500;
 /// C01 / C03: 4500 generated well-formed responses: the body read through bytes() and through reads of random sizes is exactly
 /// the payload the generator framed
 #[test]
-fn vp_native_generated_responses_body() {
+fn vp_native_generated_responses_body() { watched(vp_native_generated_responses_body_body); }
+fn vp_native_generated_responses_body_body() {
     use std::io::Read;
     let mut cases = 0u64;
     for seed in GEN_SEEDS { let mut r = Rng(seed); for i in 0..GEN_CASES {
@@ -516,7 +548,8 @@ fn vp_native_generated_responses_body() {
 /// C04: 4500 generated responses (same generator): status code and header fields are what the generator wrote (names case-insensitively,
 /// values apart from surrounding spaces, folds as spaces, repeated fields in order, Transfer-Encoding hidden)
 #[test]
-fn vp_native_generated_responses_head() {
+fn vp_native_generated_responses_head() { watched(vp_native_generated_responses_head_body); }
+fn vp_native_generated_responses_head_body() {
     let mut cases = 0u64;
     for seed in GEN_SEEDS { let mut r = Rng(seed); for i in 0..GEN_CASES {
         let g = gen_response(&mut r);
@@ -539,7 +572,8 @@ fn vp_native_generated_responses_head() {
 /// C06: 1500 generated responses whose payload is sent gzip- or deflate-coded (levels 0..9, the coding declared with random
 /// letter case, tabs and blanks, inside a list, or on a second field line; any of the three framings): the caller reads the payload
 #[test]
-fn vp_native_generated_responses_decoded() {
+fn vp_native_generated_responses_decoded() { watched(vp_native_generated_responses_decoded_body); }
+fn vp_native_generated_responses_decoded_body() {
     let mut cases = 0u64;
     for seed in GEN_SEEDS { let mut r = Rng(seed); for i in 0..GEN_CASES / 3 {
         let g = gen_response_coded(&mut r, true);
